@@ -433,7 +433,11 @@ func Drive(ch *Check, tier string) int {
 		p := filepath.Join(rdir, name)
 		os.WriteFile(p, append(data, '\n'), 0o644)
 		fmt.Printf("VIOLATION property=%s replay=%s\n", ch.ID, p)
-		fmt.Printf("  kind=%s input=%s\n  %s\n", v.Kind, trunc(v.Case.InQ, 300), strings.ReplaceAll(trunc(v.Detail, 700), "\n", "\n  "))
+		shown := v.Case.InQ
+		if shown == "" && v.Case.Desc != "" {
+			shown = "<generated: " + v.Case.Desc + ">"
+		}
+		fmt.Printf("  kind=%s input=%s\n  %s\n", v.Kind, trunc(shown, 300), strings.ReplaceAll(trunc(v.Detail, 700), "\n", "\n  "))
 	}
 	if rep.NViolations > uint64(len(fresh)) {
 		fmt.Printf("  (%d violating executions in total)\n", rep.NViolations)
